@@ -137,6 +137,7 @@ func runC12(ctx *Ctx) {
 			}
 		}
 		ctx.Tag("scheme:" + scheme)
+		c12d12bScenario(ctx, fn.name, args, ws)
 		// correspondence: the modelled Impl/Type callbacks (Stdlib/*.lean, written for C13 and exercised there on
 		// wholly known arguments only) against the real function on the WEAKENED arguments — their unknown branches
 		if mn, ok := c12Modelled[fn.name]; ok {
@@ -166,6 +167,7 @@ func runC12(ctx *Ctx) {
 		}
 		return ro, true
 	}
+	c12d12bStrlen(ctx) // strlen on unknown arguments against its model (c12_d12b.go)
 	byName := map[string]c11Fn{}
 	for _, fn := range fns {
 		byName[fn.name] = fn
